@@ -808,16 +808,19 @@ func macatDecodeBig(r *rec.Recorder, f string, feed [][]byte, out []byte) {
 			line := rest[:k]
 			rest = rest[k+1:]
 			if f == "ascii" {
-				// lossy: compare with the message after the same mapping
-				want := make([]byte, len(m))
-				for i, c := range m {
-					if c >= 32 && c <= 126 {
-						want[i] = c
-					} else {
-						want[i] = '.'
+				// lossy: 7-bit printable bytes are kept, printable Latin-1 (0xa1..0xff but 0xad) kept or dotted, all else dotted
+				ok = len(line) == len(m)
+				for i := 0; ok && i < len(m); i++ {
+					c := m[i]
+					switch {
+					case c >= 32 && c <= 126:
+						ok = line[i] == c
+					case c >= 161 && c != 173:
+						ok = line[i] == c || line[i] == '.'
+					default:
+						ok = line[i] == '.'
 					}
 				}
-				ok = bytes.Equal(line, want)
 				got = m
 			} else {
 				got, ok = macatUnquote(line)
